@@ -19,7 +19,7 @@ theorem specHit_cons (s : Stmt) (stmts : List Stmt) (D1 D2 D3 d1 a d3 : Nat) :
     specHit (s :: stmts) D1 D2 D3 d1 a d3 = (specHit stmts D1 D2 D3 d1 a d3).or (s.assigns D1 D2 D3 d1 a d3) := by
   simp only [specHit, List.reverse_cons, List.findSome?_append]
   congr 1
-  cases s.assigns D1 D2 D3 d1 a d3 <;> rfl
+  cases h : s.assigns D1 D2 D3 d1 a d3 <;> simp [List.findSome?_cons, h]
 
 /-- "later lines override earlier ones", statement level: appending a statement changes exactly the
     cells it covers -/
@@ -150,10 +150,9 @@ theorem run_accepts_only_wellformed {fl : Flags} (hfl : fl.rowLenThrows = true) 
           have hn : n' = n := by have := pure_ok.1 hp; injection this with _ h2
           subst hn
           obtain ⟨s, hs⟩ := processMatrix_accepts_only_wellformed hfl hpm
-          have hk : k = .pomdp := by
-            have := (Bool.and_eq_true _ _).1 hO
-            simpa using this.1
-          have hO2 : startsWith l ['O'] = true := ((Bool.and_eq_true _ _).1 hO).2
+          have hO3 : (k == Kind.pomdp) = true ∧ startsWith l ['O'] = true := by simpa using hO
+          have hk : k = .pomdp := by simpa using hO3.1
+          have hO2 : startsWith l ['O'] = true := hO3.2
           exact ⟨sT, sR, s :: sW, .oline hT' hk hO2 hs hd⟩
         · have hO' : (k == .pomdp && startsWith l ['O']) = false := by simpa using hO
           simp only [hO', Bool.false_eq_true, if_false] at hstep
